@@ -1,5 +1,5 @@
-//go:build verif
-// +build verif
+//go:build verif && amd64 && !go1.25
+// +build verif,amd64,!go1.25
 
 // Package verifhook re-exports add-only test hooks of internal packages to the verification harness
 // (which lives in another module and cannot import internal/...). It exists only in the build overlay.
